@@ -114,6 +114,14 @@ func TestC06(t *testing.T) {
 		sp.XSub = rnd.Intn(sp.NSub+1) / 2
 		cases = append(cases, mon.CaseSpec{Name: "pub-device", Spec: sp})
 	}
+	// sub-redial, own-rejection dimension: the SUBSCRIBER's pipe hook closes some of its own
+	// connections during Attaching or Attached; afterwards one live connection, every message once.
+	for i := 0; i < r.Pick(32, 1000); i++ {
+		sp := spec{Mode: "redial", Tr: pickTr(), NSub: 1 + rnd.Intn(3), NCtx: 1 + rnd.Intn(2), RawPub: rnd.Intn(3) == 0,
+			Rounds: rnd.Intn(3), Reject: true}
+		sp.XSub = rnd.Intn(sp.NSub+1) / 2
+		cases = append(cases, mon.CaseSpec{Name: "sub-redial", Spec: sp})
+	}
 	r.Run(cases, func(c *mon.Case) {
 		sp := c.Spec.(spec)
 		switch sp.Mode {
